@@ -25,6 +25,7 @@ SURROUND = [
     "  \t ",
     "uint8 K%d = 1 + 1",
     "void3",
+    "@assert 'two\nlines' != ''  # a statement continued over two lines",
 ]
 
 # (name, statement, needs-line): needs-line False = the fault surfaces when the composite is constructed (no statement
@@ -113,9 +114,15 @@ def _read(defs: typing.List[typing.Any], prints: typing.List[typing.Any],
         return NR.read_definitions([defs[0]], list(defs), handler, True)
 
 
+def _lines_before(body: typing.Sequence[str], index: int) -> int:
+    return sum(s.count("\n") + 1 for s in body[:index])
+
+
 def _check_fault(location: str, body: typing.List[str], fault_index: int, crlf: bool, final_newline: bool,
                  needs_line: bool, env: typing.Optional[typing.Mapping[str, typing.Any]] = None) -> typing.Any:
     import pydsdl
+
+    fault_index = _lines_before(body, fault_index)
 
     defs, culprit = _build(location, body, crlf, final_newline)
     prints = []  # type: typing.List[typing.Any]
@@ -234,7 +241,8 @@ def make_print(location: str, crlf: bool, final_newline: bool, pre: typing.List[
 
         if not -3 <= a <= 12:
             return None
-        want = [(len(pre_l) + 1, str(a)), (len(pre_l) + len(mid_l) + 2, str(a + 1))]
+        n1 = _lines_before(pre_l, len(pre_l))
+        want = [(n1 + 1, str(a)), (n1 + 1 + _lines_before(mid_l, len(mid_l)) + 1, str(a + 1))]
         return _check_print(location, body, want, crlf, final_newline, {"a": E.Rational(a)})
 
     return h
@@ -253,7 +261,8 @@ def make_print_concrete(location: str, crlf: bool, final_newline: bool, max_pre:
         bits = 8
         for k in pre_k:
             bits += {2: 8, 4: 16, 7: 3}.get(k, 0)
-        want = [(len(pre) + 1, shown), (len(pre) + 3, "{%d}" % bits)]
+        n1 = _lines_before(pre, len(pre))
+        want = [(n1 + 1, shown), (n1 + 3, "{%d}" % bits)]
         return _check_print(location, body, want, crlf, final_newline)
 
     def h(n_pre: int, v: int, k0: int, k1: int, k2: int) -> typing.Any:
